@@ -267,9 +267,13 @@ func (r *Run) park(kind opKind, on interface{}) {
 
 // ---- primitives --------------------------------------------------------------------
 
+// YieldOff turns the statement-level points off: only lock acquisitions, thread starts and
+// thread ends remain scheduling points (used for the unbounded synchronisation-level pass).
+var YieldOff atomic.Bool
+
 // Yield is injected before every statement of the instrumented files.
 func Yield() {
-	if r := active.Load(); r != nil && !r.aborting {
+	if r := active.Load(); r != nil && !r.aborting && !YieldOff.Load() {
 		r.park(opYield, nil)
 	}
 }
